@@ -20,6 +20,7 @@ pub fn def_use(
             il::RefFunctionLocation::Instruction(_, instruction) => instruction
                 .operation()
                 .scalars_read()
+                .unwrap_or_default()
                 .into_iter()
                 .for_each(|scalar_read| {
                     rd[location].locations().iter().for_each(|rd| {
@@ -30,6 +31,7 @@ pub fn def_use(
                             .unwrap()
                             .operation()
                             .scalars_written()
+                            .unwrap_or_default()
                             .into_iter()
                             .for_each(|scalar_written| {
                                 if scalar_written == scalar_read {
